@@ -68,8 +68,9 @@ TOLERANCES = {
                 'point r_k <= r_conv * (1 + 1e-6) + 1e-10 * scale (known '
                 'finding C12-K3: it grows without bound)',
     'cg_energy': 'strict decrease e_k < e_{k-1} while e_{k-1} > '
-                 '1e-11 * cond * e_0; ||x_n - x*|| <= 1e-8 * cond * '
-                 '(||x*|| + ||x_0 - x*||) after n = dim steps for cond <= '
+                 '1e-11 * cond * e_0 + 1e-12 * cond * (||x*||_A + e_0); '
+                 '||x_n - x*|| <= 1e-8 * cond * ||x_0 - x*|| + 1e-12 * cond '
+                 '* (||x*|| + ||x_0 - x*||) after n = dim steps for cond <= '
                  '1e2 (measured: 3e-9 at cond 1e2, 8e-4 at cond 1e3 - finite '
                  'termination is lost to rounding beyond); x100 after d '
                  'steps for d < n distinct eigenvalues',
@@ -455,10 +456,29 @@ def _dr_dual_case_st(draw):
             'xscale': draw(st.sampled_from([1.0, 5.0, 0.2]))}
 
 
+SCALES = [1e-9, 1e-4, 1.0, 1e4, 1e9]
+
+
 @st.composite
 def _lin_case_st(draw, clause):
     seed = draw(st.integers(0, 2 ** 24))
     c = {'seed': seed, 'x0scale': draw(st.sampled_from([1.0, 10.0, 0.1]))}
+    if clause != 'stepsize':
+        # scale stratum: the whole problem multiplied by s on the operator
+        # and / or on the unknowns (every asserted property is scale
+        # invariant; all tolerances are relative to the problem scale),
+        # plus warm starts at x* + tiny
+        unit = draw(st.integers(0, 2)) == 0
+        c['opscale'] = 1.0 if unit else draw(st.sampled_from(SCALES))
+        c['xscale'] = 1.0 if unit else draw(st.sampled_from(SCALES))
+        c['warm'] = draw(st.integers(0, 4)) == 0
+        if clause == 'steepest':
+            c['warm'] = False
+            # BacktrackingLineSearch starts at step 1 and stops at
+            # 10 * resolution (documented): the curvature has to leave a
+            # representable step and a representable decrease
+            if c['opscale'] not in (1.0, 1e-4, 1e4):
+                c['opscale'] = draw(st.sampled_from([1e-4, 1e4]))
     if clause == 'cg':
         sd = draw(pb.tensor_domain_st(2, 8))
         n = sd['shape'][0]
@@ -511,6 +531,8 @@ def _lin_case_st(draw, clause):
             extra = {'L': od, 'g': draw(pb.func_on_class_st(
                 cls, ('huber', 'l2sq', 'l2sq') if cls['t'] == 'leaf'
                 else ('l2sq',), sepsum=False))}
+        if c['opscale'] != 1.0 or c['xscale'] != 1.0:
+            extra = None
         c.update(domain=sd, A=A, extra=extra,
                  ls_tau=draw(st.sampled_from([0.5, 0.5, 0.8, 0.3])),
                  discount=draw(st.sampled_from([0.01, 0.1, 0.4])),
@@ -587,6 +609,41 @@ def _exact_or_excluded(lins, strata):
     return None
 
 
+def _scaled_op(op, sc):
+    """sc * op as an operator of the same kind where that matters (a scaled
+    identity / scaling operator stays a ScalingOperator, whose adjoint is
+    the operator itself)."""
+    if sc == 1.0:
+        return op
+    if isinstance(op, odl.ScalingOperator):
+        return odl.ScalingOperator(op.domain, sc * op.scalar)
+    return sc * op
+
+
+def _scales(c, strata):
+    so, sx = float(c.get('opscale', 1.0)), float(c.get('xscale', 1.0))
+    strata += ['scale=op:{:g}'.format(so), 'scale=x:{:g}'.format(sx)]
+    if c.get('warm'):
+        strata.append('warm-start')
+    return so, sx
+
+
+def _sc_region(c):
+    """Scale class for signatures (root causes that depend on magnitude)."""
+    t = float(c.get('opscale', 1.0)) * float(c.get('xscale', 1.0))
+    so = float(c.get('opscale', 1.0))
+    if so == 1.0 and t == 1.0:
+        return 'scale=unit'
+    return 'scale=small' if min(so, t) < 1 else 'scale=large'
+
+
+def _start(c, rng, xsol, sx, n):
+    """Start point: solution-independent, or warm (x* + tiny)."""
+    if c.get('warm'):
+        return xsol + 1e-8 * sx * np.round(rng.standard_normal(n), 3)
+    return None
+
+
 def _dom_kind(sd):
     if sd['kind'] == 'pspace':
         return 'vfield' if sd.get('power') is not None else 'pspace'
@@ -616,11 +673,18 @@ def _mono(seq, scale, sig, what):
 
 def _cg(c, strata):
     X = pb.build.build_space(c['domain'])
-    op, A, xsol, rhs, rng = pb.spd_system(X, c['svals'], c['seed'])
+    so, sx = _scales(c, strata)
+    op, A, xsol, rhs, rng = pb.spd_system(
+        X, [so * float(v) for v in c['svals']], c['seed'])
     n = X.size
     dX = pb.gram_diag(X)
     cond = _cond_of(c['svals'])
-    x0 = xsol + np.round(rng.standard_normal(n) * float(c['x0scale']), 3)
+    xsol = sx * xsol
+    rhs = A @ xsol
+    x0 = xsol + sx * np.round(rng.standard_normal(n) * float(c['x0scale']),
+                              3)
+    w = _start(c, rng, xsol, sx, n)
+    x0 = x0 if w is None else w
     x = X.element(x0.copy())
     seq = []
     S.conjugate_gradient(op, x, X.element(rhs.copy()), n + int(c['extra']),
@@ -632,10 +696,15 @@ def _cg(c, strata):
 
     es = [energy(x0)] + [energy(v) for v in seq]
     e0 = max(es[0], 1e-300)
+    # attainable accuracy: eps * cond relative to the energy norm of the
+    # solution (matters for warm starts, whose start error is tiny)
+    estar = float(np.sqrt(max(np.sum(dX * xsol * (A @ xsol)), 0.0))) + e0
+    floor = 1e-11 * cond * e0 + 1e-12 * cond * estar
     strata += ['cg', pb.cond_label(cond)]
-    sig = 'C12|cg-energy|conjugate_gradient|' + _dom_kind(c['domain'])
+    sig = 'C12|cg-energy|conjugate_gradient|{},{}'.format(
+        _dom_kind(c['domain']), _sc_region(c))
     for k in range(1, len(es)):
-        if es[k - 1] > 1e-11 * cond * e0 and not es[k] < es[k - 1]:
+        if es[k - 1] > floor and not es[k] < es[k - 1]:
             raise Violation(sig, 'energy-norm error not strictly decreasing '
                             'at step {}: {!r} -> {!r} (cond {:.3g})'.format(
                                 k, es[k - 1], es[k], cond))
@@ -643,13 +712,16 @@ def _cg(c, strata):
     distinct = len(set(np.round(np.asarray(c['svals']) /
                                 max(c['svals']), 6).tolist()))
     if cond <= 1e2 * (1 + 1e-4):
-        tol = 1e-8 * cond * (np.linalg.norm(xsol) +
-                             np.linalg.norm(x0 - xsol))
+        # 1e-8 cond of the start error plus the attainable accuracy
+        # (eps cond ||x*||, with margin): relative to the problem scale
+        tol = 1e-8 * cond * np.linalg.norm(x0 - xsol) + \
+            1e-12 * cond * (np.linalg.norm(xsol) + np.linalg.norm(x0 - xsol))
         xn = seq[n - 1] if len(seq) >= n else final
         err = float(np.linalg.norm(xn - xsol))
         if not err <= tol:
             raise Violation(
-                'C12|cg-finite|conjugate_gradient|' + _dom_kind(c['domain']),
+                'C12|cg-finite|conjugate_gradient|{},{}'.format(
+                    _dom_kind(c['domain']), _sc_region(c)),
                 '||x_n - x*|| = {:.3g} > {:.3g} after n = {} steps (cond '
                 '{:.3g})'.format(err, tol, n, cond))
         if distinct < n:
@@ -657,8 +729,8 @@ def _cg(c, strata):
             err = float(np.linalg.norm(xd - xsol))
             if not err <= tol * 100:
                 raise Violation(
-                    'C12|cg-finite-distinct|conjugate_gradient|' +
-                    _dom_kind(c['domain']),
+                    'C12|cg-finite-distinct|conjugate_gradient|{},{}'.format(
+                        _dom_kind(c['domain']), _sc_region(c)),
                     '||x_d - x*|| = {:.3g} after d = {} steps for {} '
                     'distinct eigenvalues'.format(err, distinct, distinct))
             strata.append('cg:clustered')
@@ -667,17 +739,20 @@ def _cg(c, strata):
 
 def _residual_clause(c, strata, clause):
     X = pb.build.build_space(c['domain'])
-    A = pb.LinOp(pb.build_operator(c['op'], X))
+    so, sx = _scales(c, strata)
+    A = pb.LinOp(_scaled_op(pb.build_operator(c['op'], X), so))
     ex = _exact_or_excluded([A], strata)
     if ex is not None:
         return ex
     rng = np.random.RandomState(int(c['seed']) % (2 ** 32))
     n, m = A.dX.size, A.dY.size
-    xt = np.round(rng.standard_normal(n), 3)
+    xt = sx * np.round(rng.standard_normal(n), 3)
     rhs = A.M @ xt
     if not c['consistent']:
-        rhs = rhs + np.round(rng.standard_normal(m), 3)
-    x0 = np.round(rng.standard_normal(n) * float(c['x0scale']), 3)
+        rhs = rhs + so * sx * np.round(rng.standard_normal(m), 3)
+    x0 = sx * np.round(rng.standard_normal(n) * float(c['x0scale']), 3)
+    w = _start(c, rng, xt, sx, n)
+    x0 = x0 if w is None else w
     x = unflat(x0, X)
     rhs_el = unflat(rhs, A.op.range)
     seq = []
@@ -696,7 +771,9 @@ def _residual_clause(c, strata, clause):
             overflow = e
         name = 'conjugate_gradient_normal'
     else:
-        omega = float(c['frac']) * 2 / max(A.norm, 1e-9) ** 2
+        if A.norm == 0:
+            return Outcome('trivial', strata=strata + ['zero-operator'])
+        omega = float(c['frac']) * 2 / A.norm ** 2
         S.landweber(A.op, x, rhs_el, N, omega=omega, callback=cb)
         name = 'landweber'
     res = [wnorm(A.M @ v - rhs, A.dY) for v in [x0] + seq]
@@ -764,23 +841,28 @@ def _residual_clause(c, strata, clause):
 def _kaczmarz(c, strata):
     X = pb.build.build_space(c['domain'])
     dX = pb.gram_diag(X)
-    scales = [float(v) for v in c.get('scales', [1.0] * len(c['ops']))]
+    so, sx = _scales(c, strata)
+    scales = [so * float(v)
+              for v in c.get('scales', [1.0] * len(c['ops']))]
     lins = []
     for o, sc in zip(c['ops'], scales):
-        op = pb.build_operator(o, X)
-        lins.append(pb.LinOp(op if sc == 1.0 else sc * op, dX))
+        lins.append(pb.LinOp(_scaled_op(pb.build_operator(o, X), sc), dX))
     ex = _exact_or_excluded(lins, strata)
     if ex is not None:
         return ex
     rng = np.random.RandomState(int(c['seed']) % (2 ** 32))
     n = dX.size
-    xt = np.round(rng.standard_normal(n), 3)
+    xt = sx * np.round(rng.standard_normal(n), 3)
     rhs = [unflat(l.M @ xt, l.op.range) for l in lins]
-    x0 = xt + np.round(rng.standard_normal(n) * float(c['x0scale']), 3)
+    x0 = xt + sx * np.round(rng.standard_normal(n) * float(c['x0scale']), 3)
+    w = _start(c, rng, xt, sx, n)
+    x0 = x0 if w is None else w
+    if any(l.norm == 0 for l in lins):
+        return Outcome('trivial', strata=strata + ['zero-operator'])
     # omega_i = c_i / ||A_i||^2 with c_i = 2 frac_i in (0, 1.9]: every
     # partial step is non-expansive w.r.t. every solution, whatever the
     # order in which the blocks are visited
-    om = [fr * 2 / max(l.norm, 1e-9) ** 2 for fr, l in zip(c['fracs'], lins)]
+    om = [fr * 2 / l.norm ** 2 for fr, l in zip(c['fracs'], lins)]
     omega = om if c['omega_list'] else min(om)
     rand = bool(c.get('random'))
     for loop in ('inner', 'outer'):
@@ -791,7 +873,7 @@ def _kaczmarz(c, strata):
                    omega=omega, random=rand, callback_loop=loop,
                    callback=lambda v: seq.append(toflat(v, X)))
         dist = [wnorm(v - xt, dX) for v in [x0] + seq]
-        _mono(dist, max(dist[0], 1e-300),
+        _mono(dist, max(dist[0], wnorm(xt, dX), 1e-300),
               'C12|kaczmarz-distance|kaczmarz|order={},{}'.format(
                   'random' if rand else 'fixed', _dom_kind(c['domain'])),
               'distance to a solution ({} loop)'.format(loop))
@@ -811,8 +893,11 @@ def _steepest(c, strata):
     dX = pb.gram_diag(X)
     n = dX.size
     rng = np.random.RandomState(int(c['seed']) % (2 ** 32))
-    A = None if c['A'] is None else pb.LinOp(pb.build_operator(c['A'], X),
-                                             dX)
+    so, sx = _scales(c, strata)
+    if c['A'] is None:
+        A = None if so == 1.0 else pb.LinOp(odl.ScalingOperator(X, so), dX)
+    else:
+        A = pb.LinOp(_scaled_op(pb.build_operator(c['A'], X), so), dX)
     lins = [A] if A is not None else []
     extra = None
     if c['extra'] is not None:
@@ -827,7 +912,7 @@ def _steepest(c, strata):
     Z = X if A is None else A.op.range
     dZ = dX if A is None else A.dY
     MA = np.eye(n) if A is None else A.M
-    b = np.round(rng.standard_normal(dZ.size), 3)
+    b = so * sx * np.round(rng.standard_normal(dZ.size), 3)
     f = (0.5 * S.L2NormSquared(Z)).translated(unflat(b, Z))
     if A is not None:
         f = f * A.op
@@ -855,8 +940,12 @@ def _steepest(c, strata):
             g = g + extra[0].adj @ sd_.lo
         return float(np.sum(dX * g * g))
 
-    x0 = np.round(rng.standard_normal(n) * float(c['x0scale']), 3)
+    x0 = sx * np.round(rng.standard_normal(n) * float(c['x0scale']), 3)
     x = unflat(x0, X)
+    # `tol` of steepest_descent is a documented absolute threshold on the
+    # squared gradient norm (default 1e-16): scaled with the problem so
+    # that every scale stratum runs the same iteration
+    tol = 1e-16 * (so * so * sx) ** 2
     ls = S.BacktrackingLineSearch(f, tau=float(c['ls_tau']),
                                   discount=float(c['discount']),
                                   alpha=float(c['alpha']),
@@ -865,6 +954,7 @@ def _steepest(c, strata):
     stopped = None
     try:
         S.steepest_descent(f, x, line_search=ls, maxiter=int(c['niter']),
+                           tol=tol,
                            callback=lambda v: seq.append(toflat(v, X)))
     except (AssertionError, ValueError) as e:
         stopped = e
@@ -911,6 +1001,8 @@ def _power(c, strata):
         op = odl.MatrixOperator((M + M.T) / 2, domain=X, range=X)
     else:
         op = pb.build_operator(od, X)
+    so, sx = _scales(c, strata)
+    op = _scaled_op(op, so)
     A = pb.LinOp(op)
     ex = _exact_or_excluded([A], strata)
     if ex is not None:
@@ -920,6 +1012,7 @@ def _power(c, strata):
     x0 = np.round(rng.standard_normal(n), 3)
     if not np.any(x0):
         x0[0] = 1.0
+    x0 = sx * x0
     selfadj = op.adjoint is op
     lower = wnorm(A.M @ x0, A.dY) / wnorm(x0, A.dX)
     iters = [1, 2, 3, 5, 10] if selfadj else [2, 4, 6, 10, 20, 50]
@@ -940,8 +1033,9 @@ def _power(c, strata):
                                               maxiter=it, **kw)
         except ValueError as e:
             if 'reached' in str(e) and (lower == 0 or A.norm == 0 or
-                                        wnorm(A.adj @ (A.M @ x0),
-                                              A.dX) < 1e-12 * A.norm ** 2):
+                                        wnorm(A.adj @ (A.M @ x0), A.dX) <
+                                        1e-12 * A.norm ** 2 *
+                                        wnorm(x0, A.dX)):
                 return Outcome('rejected', strata=strata + ['power:x=0'])
             raise
         est = float(est)
@@ -1497,6 +1591,8 @@ REQUIRED_STRATA = (
      'progress:pdhg+dual'] +
     ['cg', 'cgn', 'landweber', 'kaczmarz', 'kaczmarz:random',
      'kaczmarz:norms-differ-5x', 'steepest', 'power',
+     'scale=op:1e-09', 'scale=op:0.0001', 'scale=op:1', 'scale=op:10000',
+     'scale=op:1e+09', 'scale=x:1e-09', 'scale=x:1e+09', 'warm-start',
      'stepsize:pdhg', 'stepsize:dr', 'given:none', 'given:tau',
      'given:sigma', 'given:both', 'power:selfadjoint', 'power:normal',
      'family:strong', 'family:eqcon', 'family:kl',
